@@ -639,7 +639,7 @@ func effectLines(c *core.Ctx, effs []loopEffect) []string {
 }
 
 func checkC10(c *core.Ctx, l *core.Ledger) {
-	l.Explanation = "Static clauses of C10: (MAPORD) every range over a map in non-generated code of compile, gen, internal/plugin and the command is classified from an SSA effect analysis of its body with interprocedural mod-summaries: A = elements collected into a slice that is sorted before every later use; B = only commutative effects on outer state (map inserts keyed by the iteration key, counters, flags, error accumulation); C = no effect except returning an error; D = one file-system effect per key on a path derived from the key. Any other effect on state that outlives the iteration (namespace/import-alias/mangler counters, appends that are never sorted, mutation of shared specs, first-match returns) is order-sensitive and reported. (WALK) Module.Walk exposes map order to its callbacks by contract; each callback passed to it is classified by the same rules. (SELF-CONTAINED) the per-module callback of gen.Generate, which runs in map order, registers the whole include tree of its own module with the request builder before it adds services, so the failing lookup of an ancestor's module id never depends on what earlier iterations registered. (SOURCES) no wall-clock, random, pid or pointer-formatting source is reachable from the generation entry points. (TMPL-RANGE) templates range over maps only where text/template sorts the keys. NOT decided: byte equality across runs as such; determinism of plugin processes; RootServices/RootModules order (treated as sets, as the property allows arbitrary numbering)."
+	l.Explanation = "Static clauses of C10: (MAPORD) every range over a map in non-generated code of compile, gen, internal/plugin and the command is classified from an SSA effect analysis of its body with interprocedural mod-summaries: A = elements collected into a slice that is sorted before every later use; B = only commutative effects on outer state (map inserts keyed by the iteration key, counters, flags, error accumulation); C = no effect except returning an error; D = one file-system effect per key on a path derived from the key. Any other effect on state that outlives the iteration (namespace/import-alias/mangler counters, appends that are never sorted, mutation of shared specs, first-match returns) is order-sensitive and reported. (WALK) Module.Walk exposes map order to its callbacks by contract; each callback passed to it is classified by the same rules. (SELF-CONTAINED) the per-module callback of gen.Generate, which runs in map order, registers the whole include tree of its own module with the request builder before it adds services, so the failing lookup of an ancestor's module id never depends on what earlier iterations registered. (MEMO-KEY) a function that memoises its result keys the table by every parameter the result depends on, so a cached answer cannot depend on which caller came first. (SOURCES) no wall-clock, random, pid or pointer-formatting source is reachable from the generation entry points. (TMPL-RANGE) templates range over maps only where text/template sorts the keys. NOT decided: byte equality across runs as such; determinism of plugin processes; RootServices/RootModules order (treated as sets, as the property allows arbitrary numbering)."
 	l.RuleText = "one obligation per map-range site / Walk callback / nondeterminism source; non-trivial = the body has at least one effect on outer state"
 	l.Assumptions = []string{"text/template visits map keys in sorted order (documented behaviour)", "module and service id numbering is arbitrary by the property statement", "mod-summaries treat stdlib packages listed as pure as having no relevant side effects"}
 	rels := []string{"compile", "gen", "internal/plugin", ""}
@@ -816,6 +816,7 @@ func checkWalkCallbacks(c *core.Ctx, l *core.Ledger) {
 	// the generate callback reads the builder's module table (a service needs the ids of its ancestors' modules):
 	// that read is order-independent only if each call registers its own include tree first
 	checkModulesFirst(c, l, "SELF-CONTAINED", "generateModule.modules-first")
+	checkMemoKeys(c, l)
 }
 
 // checkNondetSources: nothing reachable from the generation entry points
@@ -898,4 +899,93 @@ func isSortedKeysHelper(f *ssa.Function) bool {
 		}
 	})
 	return sorts
+}
+
+// checkMemoKeys: a function that caches its result in a table (lookup hit =>
+// return the stored value; miss => compute, store, return) is only independent
+// of call order if the stored result is a function of the key. If another
+// parameter of the function influences the result but is not part of the key,
+// the first caller decides for all later ones — and in generation code the
+// order of callers follows map iteration.
+func checkMemoKeys(c *core.Ctx, l *core.Ledger) {
+	n := 0
+	for _, f := range c.AllFuncs("gen", "compile", "internal/plugin", "plugin") {
+		if c.IsTestFile(f.Pos()) || core.IsGenerated2(c, f) || len(f.Blocks) == 0 || f.Signature.Recv() == nil {
+			continue
+		}
+		type memo struct {
+			lk  *ssa.Lookup
+			fld string
+		}
+		var memos []memo
+		core.Instrs(f, func(in ssa.Instruction) {
+			lk, ok := in.(*ssa.Lookup)
+			if !ok || !lk.CommaOk {
+				return
+			}
+			fld, _ := core.LoadedField(lk.X)
+			if fld == nil {
+				return
+			}
+			// hit edge returns the looked-up value
+			hitReturns := false
+			var val ssa.Value
+			for _, r := range *lk.Referrers() {
+				if ex, ok := r.(*ssa.Extract); ok && ex.Index == 0 {
+					val = ex
+				}
+			}
+			if val == nil {
+				return
+			}
+			for _, r := range *val.Referrers() {
+				if ret, ok := r.(*ssa.Return); ok {
+					_ = ret
+					hitReturns = true
+				}
+			}
+			if !hitReturns {
+				return
+			}
+			// and the same table is filled in this function
+			fills := false
+			core.Instrs(f, func(i2 ssa.Instruction) {
+				if mu, ok := i2.(*ssa.MapUpdate); ok {
+					if f2, _ := core.LoadedField(mu.Map); f2 == fld {
+						fills = true
+					}
+				}
+			})
+			if fills {
+				memos = append(memos, memo{lk, fld.Name()})
+			}
+		})
+		for _, m := range memos {
+			n++
+			keySym := core.Sym(m.lk.Index)
+			var extra []string
+			for i, p := range f.Params {
+				if i == 0 {
+					continue // receiver
+				}
+				if strings.Contains(keySym, fmt.Sprintf("$%d", i)) {
+					continue
+				}
+				if p.Referrers() != nil && len(*p.Referrers()) > 0 {
+					used := false
+					for _, r := range *p.Referrers() {
+						if _, isDbg := r.(*ssa.DebugRef); !isDbg {
+							used = true
+						}
+					}
+					if used {
+						extra = append(extra, p.Name())
+					}
+				}
+			}
+			key := fmt.Sprintf("%s:%s", core.SSAName(f), m.fld)
+			l.Check(len(extra) == 0, "MEMO-KEY", key, c.Rel(m.lk.Pos()), "the cached result is keyed by every parameter it can depend on ("+keySym+")", "the function caches its result under "+keySym+" but also depends on parameter(s) "+strings.Join(extra, ", ")+" that are not part of the key: the first caller decides the result for all later callers, and callers run in map order")
+		}
+	}
+	l.Units["memo_functions"] = n
 }
